@@ -50,6 +50,10 @@ structure Row where
   raised : Bool
   calls : List (Bool × String)
   params : List (String × Fwd)
+  /-- parameters whose `same`/`sameRaw` label rests on equality of value only (None, bool, a value the
+      handler converts, a spelled-out default the handler elides); for all other parameters `same`
+      means provenance: the kernel received the very object / buffer the caller passed -/
+  byValue : List String
   post : Post
   deriving Repr, Inhabited
 
@@ -64,6 +68,21 @@ structure HandlerStatic where
   /-- numpy parameters the handler accepts but can never forward (its `*args/**kwargs` or the
       named parameter are never read) -/
   staticDropped : List String
+  /-- static provenance column (ast, independent of the trace): numpy parameters of the kernel call
+      fed by `NAME | np.asarray(NAME) | [np.asarray(_) for _ in NAME] | np.asarray(NAME) if NAME is
+      not None else None` where NAME is the handler parameter of the same slot -/
+  fwdDirect : List String
+  /-- … fed by any expression over the handler parameter of the same slot (⊇ fwdDirect) -/
+  fwdDerived : List String
+  /-- a kernel call site forwards the handler's `*args` / `**kwargs` -/
+  starPos : Bool
+  starKw : Bool
+  /-- numpy-space names of the handler's named parameters -/
+  named : List String
+  /-- numpy parameters fed from a handler parameter of another slot -/
+  crossed : List String
+  /-- for parameters labelled by value: on how many distinct caller values equality was observed -/
+  byValueSeen : List (String × Nat)
   deriving Repr, Inhabited
 
 /-! ### Python values and calls, as far as the wrapper logic can see them -/
@@ -142,7 +161,9 @@ def run {V R : Type} (numpy : Kernel V R) (alt : String → PyVal V) (alter : R 
     (unitRule : Args V → String) (row : Row) (args : Args V) : Outcome R :=
   match row.calls with
   | [] => if row.raised then .raised "handler" else .noKernel
-  | (_, g) :: _ => attach (unitRule args) (applyPost row.post alter (numpy g (forward row.params alt args)))
+  | (_, g) :: _ =>
+    if row.raised then .raised "kernel"   -- every observed instance of this call form raised inside the kernel
+    else attach (unitRule args) (applyPost row.post alter (numpy g (forward row.params alt args)))
 
 /-! ### the dispatcher (array.py:2050-2068) -/
 
@@ -190,10 +211,43 @@ def defects (row : Row) : List String := callDefects row ++ paramDefects row ++ 
 def staticDefects (h : HandlerStatic) : List String :=
   (h.staticCalls.filterMap fun g => if g == h.implements then none else some ("calls:" ++ g))
   ++ (if h.raisesOnly then [] else h.staticDropped.map fun p => "dropped:" ++ p)
+  ++ (h.crossed.map fun p => "crossed:" ++ p)
+
+def seenCount (h : HandlerStatic) (p : String) : Nat :=
+  match h.byValueSeen.find? (·.1 == p) with
+  | some (_, n) => n
+  | none => 0
+
+/-- is the dynamic label `same`/`sameRaw` of parameter `p` backed by the static column?
+    provenance labels need any static feed from the same slot (or star forwarding); by-value labels
+    need a direct feed, or a derived feed observed on at least two distinct values -/
+def justified (h : HandlerStatic) (row : Row) (p : String) : Bool :=
+  let viaStar := !h.named.contains p && (h.starPos || h.starKw)
+  if row.byValue.contains p then
+    h.fwdDirect.contains p || viaStar || (h.fwdDerived.contains p && seenCount h p ≥ 2)
+  else
+    h.fwdDerived.contains p || viaStar
+
+/-- cross-check of the two regenerated columns (dynamic trace vs ast) -/
+def provenanceDefects (h : HandlerStatic) (row : Row) : List String :=
+  match row.calls with
+  | [] => []
+  | _ :: _ =>
+    row.params.filterMap fun (p, f) =>
+      match f with
+      | .same => if justified h row p then none else some ("unjustified:" ++ p)
+      | .sameRaw => if justified h row p then none else some ("unjustified:" ++ p)
+      | _ => none
 
 /-- every defect of every row / handler is on the literal exclusion list -/
 def tableOk (excl : List (String × String)) (rows : List Row) : Bool :=
   rows.all fun r => (defects r).all fun d => excl.contains (r.func, d)
+
+/-- the same over the handler-grouped table, including the cross-check of the dynamic labels with
+    the static provenance column of the row's handler -/
+def groupedOk (excl : List (String × String)) (tbl : List (HandlerStatic × List Row)) : Bool :=
+  tbl.all fun (h, rows) => rows.all fun r =>
+    r.func == h.implements && (defects r ++ provenanceDefects h r).all fun d => excl.contains (r.func, d)
 
 def staticOk (excl : List (String × String)) (hs : List HandlerStatic) : Bool :=
   hs.all fun h => (staticDefects h).all fun d => excl.contains (h.implements, d)
@@ -202,6 +256,7 @@ def staticOk (excl : List (String × String)) (hs : List HandlerStatic) : Bool :
 def exclusionsWitnessed (excl : List (String × String)) (rows : List Row) (hs : List HandlerStatic) : Bool :=
   excl.all fun (f, d) =>
     rows.any (fun r => r.func == f && (defects r).contains d)
+    || (hs.any fun h => h.implements == f && rows.any fun r => r.func == f && (provenanceDefects h r).contains d)
     || hs.any (fun h => h.implements == f && (staticDefects h).contains d)
 
 /-- rendering used by the correspondence driver: the kernel call predicted for symbolic arguments
